@@ -43,6 +43,10 @@ def plan(ctx, pid):
 
 def design_level(ctx, which=("", "_sub", "_stake", "_iprpc")):
     """exhaustive runs of the abstract design: all action kinds (shallow) + scenario-focused kinds (deeper)"""
+    if os.environ.get("VERIF_HIST_NOMC") == "1":
+        # mutant self-tests on a busy machine: the design-level run does not depend on the repository tree
+        ctx.notes.append("design-level exhaustive run skipped (VERIF_HIST_NOMC=1)")
+        return
     for suf in which:
         cfg = ctx.pick("LavaChain_mcq%s.cfg", "LavaChain_mc%s.cfg") % suf
         mc = vlib.tlc_mc(ctx, "LavaChain", cfg, timeout=ctx.pick(900, 3600))
